@@ -9,7 +9,11 @@ by which the temperature reaches the species is a deviation dimension (direct T,
 per-species overriding a direct one, other species' kwargs present, integer-typed numbers); call-level clauses
 (repeat, caller's data left alone, in-place edits, verbose breakdown); pairs of References objects alive at
 once (new / deepcopy / to_dict-from_dict, edited after creation); histories whose reference species carry
-the References object being refitted.
+the References object being refitted.  Third round: the composition amounts are a deviation dimension
+(the menu's integers / every row scaled by a per-species dyadic factor = per-site compositions, all amounts
+non-integer and many below one / every entry shifted by a dyadic fraction = real-valued descriptors), in the
+references, in the targets, in pairs and in histories; reference lists in descending order and with one species
+listed twice.
 
 Nothing of pmutt.empirical.references is used by the oracle: the composition matrix, its rank
 and the residuals are formed here from the case description; offsets are *measured* through the
@@ -23,7 +27,9 @@ ID = 'C10'
 RULE = ('all subsets of 1-8 reference species of a 14-species menu (5 descriptors), crossed with '
         'experimental-data mode, reference-temperature mode, descriptor dictionary and the route by which the '
         'temperature reaches the species (direct, per-species kwargs, per-species overriding direct, other '
-        "species' kwargs present, integer-typed) up to the stated "
+        "species' kwargs present, integer-typed) and the composition amounts (integers, rows scaled by dyadic "
+        "per-species factors, entries shifted by dyadic fractions) up to the stated "
+        'deviation level, plus descending and repeated reference lists; also '
         'deviation level; plus BFS over append/extend/pop/refit histories of References, de-duplicated '
         'on (reference list, list last fitted), with reference species that do / do not carry the References '
         'object themselves; plus all pairs (References A of 1-3 pool species, second object made new / by '
@@ -34,7 +40,9 @@ ASSUMPTIONS = ['reference species and DFT-side models come from a fixed 14-speci
                'enthalpies from a fixed table or constructed from hidden per-descriptor offsets',
                'with unequal reference temperatures only the unconditional clauses (linear, T-independent, '
                'no S/Cp/Cv contribution, switch-off) are verdicts',
-               'temperatures are scalars (HarmonicVib does not accept array T)']
+               'temperatures are scalars (HarmonicVib does not accept array T)',
+               'non-integer amounts are dyadic fractions (0.125 ... 2.5 x the integer amount, or shifted by -0.5 ... '
+               '+0.75): exactly representable, so the harness-side composition matrix is the one the references hold']
 EXPLANATION = ('exhaustive product enumeration and explicit-state BFS on the real References / StatMech '
                'classes; algebraic oracles (A^T r = 0, r = 0, hidden offsets recovered, linearity)')
 
@@ -76,7 +84,13 @@ EXP_MODES = ['table', 'consistent']
 TREF_MODES = ['equal', 'all300', 'mixed']
 DESC_MODES = ['elements', 'groups']
 ROUTES = ['direct', 'species', 'override', 'other', 'int']
-DEFAULT = dict(exp='table', tref='equal', desc='elements', route='direct')
+# composition amounts: the menu's integers; every row scaled by a per-species dyadic factor (per-site / per-formula-
+# unit normalised compositions: rank structure kept, all amounts non-integer, many below one); every entry moved by a
+# dyadic fraction depending on (species, descriptor) (real-valued custom descriptors: proportional rows no longer are)
+COMP_MODES = ['int', 'site', 'real']
+SITE_F = [0.25, 0.5, 0.75, 1.5, 0.125, 2.5, 0.375]
+REAL_D = [0.25, -0.5, 0.375, 0.75, -0.125]
+DEFAULT = dict(exp='table', tref='equal', desc='elements', route='direct', comp='int')
 
 QUICK_SUB = [0, 1, 2, 3, 4, 5, 9, 10, 13]      # 9-species sub-menu used for 5-8 references in the quick tier
 HIST_POOL = {'quick': [0, 2, 1, 4, 5], 'thorough': [0, 2, 1, 4, 5, 9]}
@@ -87,7 +101,8 @@ PLANNED_TAGS = ['rank:square-full', 'rank:over-fullcol', 'rank:deficient', 'rank
                 'exp:table', 'exp:consistent', 'tref:equal', 'tref:all300', 'tref:mixed',
                 'desc:elements', 'desc:groups', 'resid:zero', 'resid:nonzero',
                 'target:absent-descriptor', 'target:fractional', 'target:reference-itself',
-                'target:sum-of-references', 'offset-given:no-fit', 'hist:append', 'hist:extend', 'hist:pop',
+                'target:sum-of-references', 'comp:int', 'comp:site', 'comp:real', 'comp:below-one',
+                'order:descending', 'order:repeated', 'hist:comp-site', 'hist:comp-real', 'offset-given:no-fit', 'hist:append', 'hist:extend', 'hist:pop',
                 'hist:refit', 'hist:stale', 'hist:init-offset-given', 'hist:tref-equal', 'hist:tref-byid',
                 'hist:attached', 'route:direct', 'route:species', 'route:override', 'route:other', 'route:int',
                 'pair:new', 'pair:deepcopy', 'pair:dict', 'call:repeat', 'call:edited-in-place']
@@ -105,6 +120,10 @@ def bounds(tier):
                            '+ T_ref x descriptor x other routes for 3; one deviation (routes included) for 4-5; '
                            'default + consistent for 6-8'),
                 exp_modes=EXP_MODES, tref_modes=TREF_MODES, descriptor_modes=DESC_MODES, routes=ROUTES,
+                composition_modes=COMP_MODES, site_factors=SITE_F, real_shifts=REAL_D,
+                reference_order=('ascending menu order for every subset; descending order and one reference species '
+                                 'listed twice for all pairs and for the triples of ' +
+                                 ('the 9-species sub-menu' if tier == 'quick' else 'the menu')),
                 pair_makes=PAIR_MAKES, history_reference_species_carry_references=[False, True],
                 temperatures=TEMPS, history_pool=[NAMES[i] for i in HIST_POOL[tier]],
                 history_depth=HIST_DEPTH[tier])
@@ -112,30 +131,46 @@ def bounds(tier):
 
 # ------------------------------------------------------------------ enumeration
 def _configs(level):
-    """Deviation levels.  'fullr': exp x tref x desc x route; 'full+r': exp x tref x desc with the direct route
-    plus tref x desc (exp alternating) with every other route; 'one+r': one deviation, routes included;
-    'one': one deviation of exp/tref/desc; 'two': default + consistent; 'zero'."""
+    """Deviation levels.  'fullr': exp x tref x desc x route on integer compositions, exp x tref x desc on the two
+    non-integer composition modes, and desc x route x non-integer mode (exp, tref alternating); 'full+r': exp x tref
+    x desc with the direct route, exp x {equal, all300} x desc x non-integer mode, plus tref x desc (exp alternating,
+    comp cycling through all three) with every other route; 'one+r': one deviation, routes included, plus
+    (consistent, site), real, site, (consistent, real, groups); 'one': one deviation of exp/tref/desc plus
+    (consistent, site); 'two': default + consistent + (consistent, site); 'zero'.  A non-integer composition mode
+    is taken together with consistent data (the hidden offsets must come back) and with the other descriptor
+    dictionary (real-valued custom descriptors)."""
     base = [dict(DEFAULT, exp=e, tref=t, desc=d) for e in EXP_MODES for t in TREF_MODES for d in DESC_MODES]
     if level == 'fullr':
-        return [dict(c, route=r) for c in base for r in ROUTES]
+        out = [dict(c, route=r) for c in base for r in ROUTES]
+        out += [dict(c, comp=m) for c in base for m in COMP_MODES[1:]]
+        n = 0
+        for r in ROUTES[1:]:
+            for m in COMP_MODES[1:]:
+                for d in DESC_MODES:
+                    out.append(dict(DEFAULT, exp=EXP_MODES[n % 2], tref=TREF_MODES[n % 3], desc=d, route=r, comp=m))
+                    n += 1
+        return out
     if level == 'full+r':
-        out = list(base)
+        out = list(base) + [dict(c, comp=m) for c in base if c['tref'] != 'mixed' for m in COMP_MODES[1:]]
         n = 0
         for r in ROUTES[1:]:
             for t in TREF_MODES:
                 for d in DESC_MODES:
-                    out.append(dict(DEFAULT, exp=EXP_MODES[n % 2], tref=t, desc=d, route=r))
+                    out.append(dict(DEFAULT, exp=EXP_MODES[n % 2], tref=t, desc=d, route=r, comp=COMP_MODES[n % 3]))
                     n += 1
         return out
     out = [dict(DEFAULT)]
     if level == 'zero':
         return out
     out.append(dict(DEFAULT, exp='consistent'))
+    out.append(dict(DEFAULT, exp='consistent', comp='site'))
     if level == 'two':
         return out
     out += [dict(DEFAULT, tref='all300'), dict(DEFAULT, tref='mixed'), dict(DEFAULT, desc='groups')]
     if level == 'one+r':
         out += [dict(DEFAULT, route=r) for r in ROUTES[1:]]
+        out += [dict(DEFAULT, comp='real'), dict(DEFAULT, comp='site'),
+                dict(DEFAULT, exp='consistent', comp='real', desc='groups')]
     return out
 
 
@@ -151,6 +186,14 @@ def _fit_cases(tier):
         for sub in itertools.combinations(pool, k):
             for cfg in _configs(level):
                 yield dict(kind='fit', refs=list(sub), **cfg)
+    # the order of the reference list: descending, and one reference species listed twice (two Reference objects
+    # with the same data: a repeated row of the composition matrix)
+    for k, pool in ((2, range(n)), (3, QUICK_SUB if tier == 'quick' else range(n))):
+        for sub in itertools.combinations(pool, k):
+            for refs in (list(reversed(sub)), list(sub) + [sub[0]]):
+                for cfg in (dict(DEFAULT) if k == 2 else dict(DEFAULT, comp='real', tref='all300'),
+                            dict(DEFAULT, exp='consistent', comp='site')):
+                    yield dict(kind='fit', refs=refs, **cfg)
 
 
 PAIR_MAKES = ['new', 'deepcopy', 'dict']
@@ -186,6 +229,11 @@ def shards(tier):
                     if attach:
                         sh['attach'] = True
                     out.append(sh)
+                    # the same histories on non-integer compositions: quick - the fitted, unattached histories
+                    # of prefix length 2 (3 rotations x 2 modes); thorough - every history shard x 2 modes
+                    if tier == 'thorough' or (plen == 2 and not given and not attach):
+                        for cm in COMP_MODES[1:]:
+                            out.append(dict(sh, comp=cm))
     return out
 
 
@@ -230,22 +278,35 @@ def _tref_of(pos, tref):
     return T0 if pos % 2 == 0 else 300.0
 
 
-def _exp_HoRT(i, T_ref, exp):
+def _comp(i, cmode='int'):
+    """Composition of menu species i under the composition mode (a fresh dictionary)."""
+    base = MENU[i][1]
+    if cmode == 'int':
+        return dict(base)
+    if cmode == 'site':
+        f = SITE_F[i % len(SITE_F)]
+        return {e: f * v for e, v in base.items()}
+    if cmode == 'real':
+        return {e: v + REAL_D[(i + ELEMS.index(e)) % len(REAL_D)] for e, v in base.items()}
+    raise ValueError(cmode)
+
+
+def _exp_HoRT(i, T_ref, exp, cmode='int'):
     """Experimental dimensionless enthalpy of menu species i at its reference temperature."""
     if exp == 'table':
         return MENU[i][8] / (R_KJ * T_ref)
     from pmutt.statmech import StatMech
     dft = StatMech(name=MENU[i][0], **_model(i)).get_HoRT(T=T_ref)
-    return dft - sum(HIDDEN[e] * n for e, n in MENU[i][1].items())
+    return dft - sum(HIDDEN[e] * v for e, v in _comp(i, cmode).items())
 
 
-def _reference(i, T_ref, exp, desc, route='direct'):
+def _reference(i, T_ref, exp, desc, route='direct', cmode='int'):
     from pmutt.empirical.references import Reference
     from pmutt.statmech import StatMech
-    name, comp = MENU[i][0], MENU[i][1]
+    name, comp = MENU[i][0], _comp(i, cmode)
     model = StatMech(name=name, elements=dict(comp) if desc == 'elements' else None, **_model(i))
     ref = Reference(name=name, elements=dict(comp) if desc == 'elements' else None, T_ref=_num(T_ref, route),
-                    HoRT_ref=_exp_HoRT(i, T_ref, exp), model=model)
+                    HoRT_ref=_exp_HoRT(i, T_ref, exp, cmode), model=model)
     if desc != 'elements':
         ref.groups = _desc_dict(comp, desc)
     return ref
@@ -255,14 +316,15 @@ def _build_refs(ids, cfg, trefs=None):
     from pmutt.empirical.references import References
     desc = cfg['desc']
     trefs = trefs or [_tref_of(p, cfg['tref']) for p in range(len(ids))]
-    lst = [_reference(i, t, cfg['exp'], desc, cfg.get('route', 'direct')) for i, t in zip(ids, trefs)]
+    lst = [_reference(i, t, cfg['exp'], desc, cfg.get('route', 'direct'), cfg.get('comp', 'int'))
+           for i, t in zip(ids, trefs)]
     return References(references=lst, descriptor=desc)
 
 
 # ------------------------------------------------------------------ reference model (harness side)
-def _matrix(ids):
+def _matrix(ids, cmode='int'):
     cols = [e for e in ELEMS if any(e in MENU[i][1] for i in ids)]
-    A = np.array([[float(MENU[i][1].get(e, 0)) for e in cols] for i in ids])
+    A = np.array([[float(_comp(i, cmode).get(e, 0)) for e in cols] for i in ids])
     return cols, A
 
 
@@ -318,8 +380,12 @@ def check_refs(refs, ids, trefs, cfg, ctx, sig, case, full=True, fitted_ids=None
     species `fitted_ids` (default: ids) at temperatures `trefs`."""
     desc, exp = cfg['desc'], cfg['exp']
     route = cfg.get('route', 'direct')
+    cmode = cfg.get('comp', 'int')
     fitted = ids if fitted_ids is None else fitted_ids
-    cols, A = _matrix(fitted)
+    cols, A = _matrix(fitted, cmode)
+    ctx.tag('comp:' + cmode)
+    if np.any((A > 0) & (A < 1)):
+        ctx.tag('comp:below-one')
     rclass, rank = _rank_class(A)
     equal_T = len(set(trefs)) == 1
     T_fit = float(np.mean(trefs))
@@ -328,10 +394,10 @@ def check_refs(refs, ids, trefs, cfg, ctx, sig, case, full=True, fitted_ids=None
     # (1) (2) the fitted references themselves, evaluated through StatMech at their reference temperature
     obs, expv, dft = [], [], []
     for i, t in zip(fitted, trefs):
-        sp = _species(MENU[i][0], MENU[i][1], desc, refs, _model(i))
+        sp = _species(MENU[i][0], _comp(i, cmode), desc, refs, _model(i))
         obs.append(_get(sp, 'get_HoRT', t, route))
         dft.append(_get(sp, 'get_HoRT', t, route, use_references=False))
-        expv.append(_exp_HoRT(i, t, exp))
+        expv.append(_exp_HoRT(i, t, exp, cmode))
         ctx.evals(2)
     ctx.tag('target:reference-itself')
     obs, expv, dft = np.array(obs), np.array(expv), np.array(dft)
@@ -367,7 +433,7 @@ def check_refs(refs, ids, trefs, cfg, ctx, sig, case, full=True, fitted_ids=None
                         [unit[e] for e in cols], [-HIDDEN[e] for e in cols], sig, case, rtol=1e-9,
                         scale=[abs(HIDDEN[e]) * 4 + 1.0 for e in cols])
 
-    n1, n2 = MENU[ids[0]][1], MENU[ids[-1]][1]
+    n1, n2 = _comp(ids[0], cmode), _comp(ids[-1], cmode)
     both = {e: n1.get(e, 0) + n2.get(e, 0) for e in set(n1) | set(n2)}
     targets = [('ref-first', dict(n1)), ('sum', both), ('double', {e: 2 * v for e, v in n1.items()}),
                ('fractional', dict({e: 0.5 * v for e, v in n2.items()}, S=0.25)),
@@ -406,7 +472,7 @@ def check_refs(refs, ids, trefs, cfg, ctx, sig, case, full=True, fitted_ids=None
     # (3) nothing in S, Cp, Cv; switched off = species built without references; units
     from pmutt import constants as c
     i = ids[0]
-    comp = MENU[i][1]
+    comp = _comp(i, cmode)
     spw = _species(MENU[i][0], comp, desc, refs, _model(i))
     spn = _species(MENU[i][0], comp, desc, None, _model(i))
 
@@ -518,15 +584,20 @@ def _same(a, b):
 
 # ------------------------------------------------------------------ fit cases
 def _fit_sig(case):
-    _, A = _matrix(case['refs'])
+    _, A = _matrix(case['refs'], case.get('comp', 'int'))
     return dict(kind='fit', rank=_rank_class(A)[0], exp=case['exp'], tref=case['tref'], desc=case['desc'],
-                route=case.get('route', 'direct'))
+                route=case.get('route', 'direct'), comp=case.get('comp', 'int'))
 
 
 def _run_fit(case, ctx):
     ids = case['refs']
-    cfg = dict(exp=case['exp'], tref=case['tref'], desc=case['desc'], route=case.get('route', 'direct'))
+    cfg = dict(exp=case['exp'], tref=case['tref'], desc=case['desc'], route=case.get('route', 'direct'),
+               comp=case.get('comp', 'int'))
     sig = _fit_sig(case)
+    if len(set(ids)) < len(ids):
+        ctx.tag('order:repeated')
+    elif ids != sorted(ids):
+        ctx.tag('order:descending')
     trefs = [_tref_of(p, cfg['tref']) for p in range(len(ids))]
     refs = _build_refs(ids, cfg, trefs)
     ctx.trace()
@@ -603,7 +674,7 @@ PCFG_B = dict(exp='consistent', tref='all300', desc='elements')
 
 
 def _pair_sig(case):
-    return dict(kind='pair', make=case['make'], edit=case['edit'][0])
+    return dict(kind='pair', make=case['make'], edit=case['edit'][0])      # composition modes: see _run_pair
 
 
 def _run_pair(case, ctx):
@@ -615,10 +686,11 @@ def _run_pair(case, ctx):
     sig = _pair_sig(case)
     a_ids, make, edit = case['a'], case['make'], case['edit']
     cfgA = dict(exp='table', tref='equal' if len(a_ids) == 2 else 'all300',
-                desc='groups' if (make == 'deepcopy' and len(a_ids) % 2) else 'elements')
+                desc='groups' if (make == 'deepcopy' and len(a_ids) % 2) else 'elements',
+                comp=COMP_MODES[(sum(a_ids) + PAIR_MAKES.index(make)) % 3])
     tA = _tref_of(0, cfgA['tref'])
     trefsA = [tA] * len(a_ids)
-    lstA = [_reference(i, t, cfgA['exp'], cfgA['desc']) for i, t in zip(a_ids, trefsA)]
+    lstA = [_reference(i, t, cfgA['exp'], cfgA['desc'], cmode=cfgA['comp']) for i, t in zip(a_ids, trefsA)]
     lst_before = list(lstA)
     A = References(references=lstA, descriptor=cfgA['desc'])
     T = 650.0
@@ -629,9 +701,9 @@ def _run_pair(case, ctx):
     b_ids = a_ids + [edit[1]] if edit[0] == 'append' else a_ids[:-1]
     ctx.tag('pair:' + make)
     if make == 'new':
-        cfgB = dict(PCFG_B)
+        cfgB = dict(PCFG_B, comp=COMP_MODES[(COMP_MODES.index(cfgA['comp']) + 1 + len(a_ids) % 2) % 3])
         trefsB = [300.0] * len(b_ids)
-        lstB = [_reference(i, t, cfgB['exp'], cfgB['desc']) for i, t in zip(b_ids, trefsB)]
+        lstB = [_reference(i, t, cfgB['exp'], cfgB['desc'], cmode=cfgB['comp']) for i, t in zip(b_ids, trefsB)]
         # every option spelled out, offset=None and a T_ref that the fit has to replace
         B = References(offset=None, references=lstB, descriptor='elements', T_ref=777.0)
     else:
@@ -648,7 +720,7 @@ def _run_pair(case, ctx):
         ctx.close('a copy reports the offsets and T_ref of the original', _measure_offsets(B, T, cfgB['desc'])
                   + [float(B.T_ref)], a0 + [tr0], sig, case, rtol=0.0, atol=0.0)
         if edit[0] == 'append':
-            B.append(_reference(edit[1], tA, cfgB['exp'], cfgB['desc']))
+            B.append(_reference(edit[1], tA, cfgB['exp'], cfgB['desc'], cmode=cfgB['comp']))
         else:
             B.pop()
         B.fit_HoRT_offset()
@@ -688,7 +760,7 @@ def _hT(i, init):
 def _hist_init(init):
     """A real References object for the initial state; returns (refs, current ids, fitted ids)."""
     from pmutt.empirical.references import References
-    lst = [_reference(i, _hT(i, init), 'table', 'elements') for i in init['refs']]
+    lst = [_reference(i, _hT(i, init), 'table', 'elements', cmode=init.get('comp', 'int')) for i in init['refs']]
     if init['given']:
         refs = References(offset={'H': 1.0, 'O': -2.0}, references=lst)
         fitted = None
@@ -703,7 +775,7 @@ def _hist_init(init):
 
 
 def _href(i, init, refs):
-    ref = _reference(i, _hT(i, init), 'table', 'elements')
+    ref = _reference(i, _hT(i, init), 'table', 'elements', cmode=init.get('comp', 'int'))
     if init.get('attach'):
         ref.model.references = refs
     return ref
@@ -749,6 +821,8 @@ def _hist_sig(case):
                tref=case['init'].get('tref', 'equal'))
     if case['init'].get('attach'):
         sig['attached'] = True
+    if case['init'].get('comp', 'int') != 'int':
+        sig['comp'] = case['init']['comp']
     return sig
 
 
@@ -761,8 +835,12 @@ def _run_hist(case, ctx, res=None):
     if case['init']['given']:
         ctx.tag('hist:init-offset-given')
     attach = bool(case['init'].get('attach'))
+    cmode = case['init'].get('comp', 'int')
+    hcfg = dict(HCFG, comp=cmode)
     if attach:
         ctx.tag('hist:attached')
+    if cmode != 'int':
+        ctx.tag('hist:comp-' + cmode)
     for op in case['ops']:
         cur, fitted = _apply(refs, cur, fitted, op, case['init'])
         ctx.tag('hist:' + op[0])
@@ -778,7 +856,7 @@ def _run_hist(case, ctx, res=None):
     trefs = [_hT(i, case['init']) for i in fitted]
     ctx.tag('hist:tref-' + case['init'].get('tref', 'equal'))
     # history oracle: the offsets equal those of a fit built from scratch on the list last fitted
-    scratch = _build_refs(fitted, HCFG, trefs)
+    scratch = _build_refs(fitted, hcfg, trefs)
     T = 650.0
     a, b = _measure_offsets(refs, T), _measure_offsets(scratch, T)
     ctx.evals(20)
@@ -793,13 +871,13 @@ def _run_hist(case, ctx, res=None):
     if attach and cur:
         # the reference species that carry the References object report what a fresh species reports
         held = [r.model.get_HoRT(T=r.T_ref) for r in refs]
-        fresh = [_species(MENU[i][0], MENU[i][1], 'elements', refs, _model(i)).get_HoRT(T=_hT(i, case['init']))
+        fresh = [_species(MENU[i][0], _comp(i, cmode), 'elements', refs, _model(i)).get_HoRT(T=_hT(i, case['init']))
                  for i in cur]
         ctx.evals(2 * len(cur))
         ok &= ctx.close('reference species carrying the References object report the adjusted enthalpy of a fresh '
                         'species', held, fresh, sig, case, rtol=1e-12)
     if ok:
-        check_refs(refs, cur, trefs, HCFG, ctx, sig, case, full=False, fitted_ids=fitted)
+        check_refs(refs, cur, trefs, hcfg, ctx, sig, case, full=False, fitted_ids=fitted)
 
 
 def check_case(case, ctx):
@@ -823,7 +901,7 @@ def run_shard(shard, ctx):
                 continue
             sig = _fit_sig(case)
             ctx.run_case(_run_fit, case, sig)
-            key = ('fit', tuple(case['refs']), case['exp'], case['tref'], case['desc'], case['route'])
+            key = ('fit', tuple(case['refs']), case['exp'], case['tref'], case['desc'], case['route'], case['comp'])
             ctx.state(key)
             if sig['rank'] != 'square-full' or {k: case[k] for k in DEFAULT} != DEFAULT:
                 ctx.nontrivial(key)
@@ -849,13 +927,15 @@ def run_shard(shard, ctx):
     init = dict(refs=shard['init'], given=shard['given'], tref=shard['tref'])
     if shard.get('attach'):
         init['attach'] = True
+    if shard.get('comp', 'int') != 'int':
+        init['comp'] = shard['comp']
     pool, depth = shard['pool'], shard['depth']
     root = dict(kind='hist', init=init, ops=[])
     res = {}
     if not ctx.run_case(lambda c_, x_: _run_hist(c_, x_, res), root, _hist_sig(root)):
         return
     seen = {res['key']}
-    hkey = ('hist', init['given'], init['tref'], bool(init.get('attach')))
+    hkey = ('hist', init['given'], init['tref'], bool(init.get('attach')), init.get('comp', 'int'))
     ctx.state(hkey + res['key'])
     frontier = [([], res['key'][0])]
     for d in range(depth):
@@ -882,7 +962,8 @@ def run_shard(shard, ctx):
 
 LEVEL_TEXT = ('Exhaustive enumeration of every subset of 1-8 reference species of a 14-species menu over five '
               'descriptors (square, over-determined, under-determined and rank-deficient composition matrices), '
-              'crossed with experimental-data, reference-temperature and descriptor-dictionary modes up to the '
+              'crossed with experimental-data, reference-temperature, descriptor-dictionary and composition-amount '
+              '(integer / per-site scaled / real-valued) modes up to the '
               'stated deviation level, each fitted by the real References class and evaluated through real '
               'StatMech species with the temperature supplied directly, through the per-species keyword '
               'dictionary, through both, next to other species\' dictionaries, and integer-typed; plus '
@@ -890,7 +971,8 @@ LEVEL_TEXT = ('Exhaustive enumeration of every subset of 1-8 reference species o
               'References object attached) compared with a fit from scratch; plus pairs of References objects '
               '(new / deepcopy / to_dict-from_dict, edited and refitted) alive at once. All clauses evaluated in '
               'every case.')
-LEVEL_NOTE = ('Menu of 14 species / 5 descriptors; quick: all subsets of size 1-4 plus size 5-8 of a 9-species '
+LEVEL_NOTE = ('Menu of 14 species / 5 descriptors x 3 composition-amount modes; pairs and triples also in descending '
+              'order and with one species listed twice; quick: all subsets of size 1-4 plus size 5-8 of a 9-species '
               'sub-menu, history depth 4; thorough: all 12910 subsets, depth 5. With unequal reference '
               'temperatures only the unconditional clauses are verdicts. Scalar temperatures only.')
 TECHNIQUE = ('deviation-bounded exhaustive product enumeration + explicit-state BFS over operation histories on '
